@@ -19,20 +19,36 @@ type pipeRow struct {
 	reissued               bool
 }
 
-var pipeSpec = []pipeRow{
-	{"withTagName", "WithTagName", "tagName", true},
-	{"withHookFn", "WithHookFn", "valueTransformationHook", true},
-	{"withUnknown", "WithUnknownValue", "unknownVal", true},
-	{"withMaxExpressions", "WithMaxExpressions", "", false}, // consumed at creation (C11)
-	{"withLocalVariables", "WithLocalVariable", "", false},  // internal: quantifier bindings (C06)
+// keyed by the public constructors; the option field each one writes and the Evaluator field that carries it are
+// discovered from the code (pipeRows), so renaming the unexported plumbing does not matter.
+var pipeCtors = []struct {
+	ctor     string
+	reissued bool
+}{
+	{"WithTagName", true},
+	{"WithHookFn", true},
+	{"WithUnknownValue", true},
+	{"WithMaxExpressions", false}, // consumed at creation (C11)
+	{"WithLocalVariable", false},  // internal: quantifier bindings (C06)
+}
+
+var pipeSpec []pipeRow
+
+// pipeRows resolves the table for this program; evalField is filled in by checkEvaluatorPipeline.
+func pipeRows(prog *Program) []pipeRow {
+	var rows []pipeRow
+	for _, c := range pipeCtors {
+		rows = append(rows, pipeRow{field: optField(prog, c.ctor), ctor: c.ctor, reissued: c.reissued})
+	}
+	return rows
 }
 
 func optionsStruct(prog *Program) *types.Struct {
-	o := prog.Bexpr.Types.Scope().Lookup("options")
+	o := optRoles(prog).optionsT
 	if o == nil {
 		return nil
 	}
-	st, _ := o.Type().Underlying().(*types.Struct)
+	st, _ := o.Underlying().(*types.Struct)
 	return st
 }
 
@@ -85,6 +101,7 @@ func sliceElems(st *pstate, s *Sym, deref *Sym) ([]*Sym, bool) {
 }
 
 func checkOptionConstructors(r *Run, prog *Program, pfx string) {
+	pipeSpec = pipeRows(prog)
 	ost := optionsStruct(prog)
 	if ost == nil {
 		r.Fail("unresolved-anchor", pfx+".constructor", "options", "options.go", "type options not found")
@@ -103,11 +120,16 @@ func checkOptionConstructors(r *Run, prog *Program, pfx string) {
 		r.Check(pfx+".pipeline-table", "field:"+ost.Field(i).Name(), prog.pos(ost.Field(i).Pos()), found, "option field "+ost.Field(i).Name()+" has no pipeline in the checker's table: a new option must be carried from creation to every Evaluate")
 	}
 	r.Floor(pfx+".constructor", 4)
+	dupField := map[string]string{}
 	for _, row := range pipeSpec {
-		if !have[row.field] {
-			r.Check(pfx+".pipeline-table", "row:"+row.field, "options.go", false, "option field "+row.field+" no longer exists")
+		if row.field == "" || !have[row.field] {
+			r.Check(pfx+".pipeline-table", "row:"+row.ctor, "options.go", false, "constructor "+row.ctor+" does not store into exactly one field of the options struct")
 			continue
 		}
+		if other, dup := dupField[row.field]; dup {
+			r.Check(pfx+".pipeline-table", "row:"+row.ctor, "options.go", false, row.ctor+" and "+other+" write the same option field "+row.field+": options would override each other")
+		}
+		dupField[row.field] = row.ctor
 		ctor := prog.BexprSSA.Func(row.ctor)
 		if ctor == nil || len(ctor.AnonFuncs) != 1 {
 			r.Check(pfx+".constructor", row.ctor, "options.go", false, "constructor "+row.ctor+" (returning one closure) not found")
@@ -148,7 +170,7 @@ func checkOptionConstructors(r *Run, prog *Program, pfx string) {
 					// the value: the captured parameter (or its address), or for the bindings an append to the same field
 					v := x.Val
 					okV := isCaptured(v)
-					if !okV && row.field == "withLocalVariables" {
+					if !okV && row.ctor == "WithLocalVariable" {
 						if c, isC := v.(*ssa.Call); isC {
 							if bi, isB := c.Call.Value.(*ssa.Builtin); isB && bi.Name() == "append" {
 								okV = true
@@ -162,7 +184,7 @@ func checkOptionConstructors(r *Run, prog *Program, pfx string) {
 					if x.Op == token.MUL {
 						if fa, ok := x.X.(*ssa.FieldAddr); ok && fa.X == ssa.Value(cl.Params[0]) {
 							name := fieldName(fa.X.Type(), fa.Field)
-							if name != row.field || row.field != "withLocalVariables" {
+							if name != row.field || row.ctor != "WithLocalVariable" {
 								probs = append(probs, "reads option field "+name+": options must not depend on each other or on earlier settings (last one wins)")
 							}
 						}
@@ -197,7 +219,7 @@ func checkOptionConstructors(r *Run, prog *Program, pfx string) {
 
 func checkGetOpts(r *Run, prog *Program, a *Anchors, pfx string) {
 	// defaults
-	gdo := prog.BexprSSA.Func("getDefaultOptions")
+	gdo := optRoles(prog).getDefault
 	if gdo == nil {
 		r.Fail("unresolved-anchor", pfx+".defaults", "getDefaultOptions", "options.go", "not found")
 		return
@@ -211,11 +233,11 @@ func checkGetOpts(r *Run, prog *Program, a *Anchors, pfx string) {
 		// neutral values of the statement: tag name `bexpr`, budget 0, no hook, no unknown value, no bindings
 		for f, v := range d.F {
 			switch f {
-			case "withTagName":
+			case optField(prog, "WithTagName"):
 				if v.K != sConst || v.C == nil || v.C.Kind() != constant.String || constant.StringVal(v.C) != "bexpr" {
 					ok, why = false, "default tag name is "+v.Key()+", the documented neutral value is \"bexpr\""
 				}
-			case "withMaxExpressions":
+			case optField(prog, "WithMaxExpressions"):
 				if b, o := linear(v); b != "" || o != 0 {
 					ok, why = false, "default budget is "+v.Key()+", expected 0 (unlimited)"
 				}
@@ -225,7 +247,7 @@ func checkGetOpts(r *Run, prog *Program, a *Anchors, pfx string) {
 				}
 			}
 		}
-		if _, has := d.F["withTagName"]; !has {
+		if _, has := d.F[optField(prog, "WithTagName")]; !has {
 			ok, why = false, "the default options do not set the tag name"
 		}
 	}
@@ -323,6 +345,21 @@ func checkEvaluatorPipeline(r *Run, prog *Program, a *Anchors, pfx string) {
 		return
 	}
 	r.Floor(pfx+".pipeline", 8)
+	pipeSpec = pipeRows(prog)
+	for i := range pipeSpec {
+		if !pipeSpec[i].reissued {
+			continue
+		}
+		want := (&Sym{K: sField, A: optsSym, Str: pipeSpec[i].field}).Key()
+		for f, v := range created.F {
+			if v.Key() == want {
+				pipeSpec[i].evalField = f
+			}
+		}
+		if pipeSpec[i].evalField == "" {
+			r.Check(pfx+".pipeline", "create:"+pipeSpec[i].ctor, prog.pos(a.CreateEv.Pos()), false, "CreateEvaluator does not copy the option set by "+pipeSpec[i].ctor+" (unmodified) into any field of the Evaluator: it could not govern later Evaluate calls")
+		}
+	}
 	for _, row := range pipeSpec {
 		if row.evalField == "" {
 			continue
@@ -365,7 +402,13 @@ func checkEvaluatorPipeline(r *Run, prog *Program, a *Anchors, pfx string) {
 				got[callee.Name()] = args[0].Key()
 				order = append(order, callee.Name())
 			}
-			unk := loadField(pRecv, "unknownVal")
+			unkField := ""
+			for _, row := range pipeSpec {
+				if row.ctor == "WithUnknownValue" {
+					unkField = row.evalField
+				}
+			}
+			unk := loadField(pRecv, unkField)
 			unkNil, known := evalEq(sm.St, unk, nilSym())
 			for _, row := range pipeSpec {
 				if !row.reissued {
@@ -375,7 +418,10 @@ func checkEvaluatorPipeline(r *Run, prog *Program, a *Anchors, pfx string) {
 					continue
 				}
 				want := loadField(pRecv, row.evalField).Key()
-				if row.field == "withUnknown" {
+				if row.evalField == "" {
+					continue
+				}
+				if row.ctor == "WithUnknownValue" {
 					if !known {
 						r.Check(pfx+".pipeline", "evaluate:"+row.ctor, prog.pos(ev.Instr.Pos()), false, "Evaluate does not test whether an unknown value was configured")
 						continue
